@@ -38,6 +38,18 @@ Theorem links_once : forall ds sq mask max_len, topo ds sq ->
 Proof. exact VectOnce.links_once. Qed.
 Print Assumptions links_once.
 
+(* THE LENGTH OF CUT PIECES: with a positive maximum length every feature has at most 1.5 * max_len + 1.5 vertices
+   (Python's round() is within one half of its argument: k = round(l / max_len) pieces of n = round(l / k) links; when
+   k > max_len the pieces have exactly max_len links and the remainder is at most max_len / 2) *)
+Theorem cut_piece_bound : forall idxs m p, 0 < m -> In p (cut idxs m) -> 2 * Z.of_nat (length p) <= 3 * m + 3.
+Proof. exact VectSpec.cut_piece_bound. Qed.
+Print Assumptions cut_piece_bound.
+
+Theorem streams_piece_bound : forall ds sq mask m p, 0 < m -> In p (streams ds sq mask m) ->
+  2 * Z.of_nat (length p) <= 3 * m + 3.
+Proof. exact VectSpec.streams_piece_bound. Qed.
+Print Assumptions streams_piece_bound.
+
 (* non-vacuity: a Y network 1 -> 0 <- 2, 3 -> 1 ; streams [3;1;0], [2;0], the single-vertex [0] (dropped by features), [0;0]; cutting 5 vertices at max_len 2 *)
 Example streams_example : streams [0;0;0;1]%nat [0;1;2;3]%nat None 0 = [[3;1;0]; [2;0]; [0]; [0;0]]%nat
   /\ cut [1;2;3;4;5]%nat 2 = [[1;2;3]; [3;4;5]]%nat.
